@@ -243,7 +243,8 @@ def distance_bin(G):
     while np.any(L):
         D += n * L
         n += 1
-        nPATH = np.dot(nPATH, G)
+        # keep only which walks exist: the raw counts overflow on large graphs
+        nPATH = (np.dot(nPATH, G) != 0).astype(G.dtype)
         L = (nPATH != 0) * (D == 0)
 
     D[D == 0] = np.inf  # disconnected nodes are assigned d=inf
